@@ -1,4 +1,5 @@
 import KitProofs.Lemmas.Batcher
+import KitProofs.Lemmas.BatcherProgress
 import KitProofs.Props.C06
 /-!
 # C10 — batcher: last value per key once per quiet interval; departures never wedge it
@@ -178,6 +179,63 @@ theorem nothing_after_close {cfg : Cfg} {s s' : State} {a : Label} (hr : Reach (
          | rfl
          | (exact hset _ _ _ ‹_› (by rfl)))))
 
+/-! ## departures never wedge the batcher (repaired fan-out)
+
+`stalled` is the set of subscribers whose readers never read again; `Departed stalled s` says that
+each of them has ended its context (whatever its buffer holds: full, empty, its forwarder anywhere).
+A progress path (`Steps … (Allowed stalled)`) uses only internal steps — the queue's loop, `execute`,
+the forwarders, the remaining steps of `Subscribe`/`Close` — and deliveries to readers that are NOT
+stalled; no clock advance, no other environment action.  With `stalled := fun _ => True` every
+reader is stalled and every subscriber has left. -/
+
+/-- **departure_never_wedges (execute)**: from every reachable state in which the callback
+`execute` is running — waiting for the lock or blocked anywhere in its fan-out — it returns. -/
+theorem departure_never_wedges_execute {cfg : Cfg} (hfix : cfg.fixed = true) (hcap : 0 < cfg.cap)
+    {stalled : Nat → Prop} {s : State} (hr : Reach (Batcher.lts cfg) s) {r : It} (hpc : s.p.pc = .running r)
+    (hd : Departed stalled s) :
+    ∃ s', Steps (Batcher.lts cfg) (Allowed stalled) s s' ∧ s'.epc = .idle ∧ s'.p = { s.p with pc := .top } := by
+  obtain ⟨s', h1, h2, h3, _⟩ := execute_completes hfix hcap hr hpc hd
+  exact ⟨s', h1, h3, h2⟩
+
+/-- `Batch` itself never blocks: in every state the call is enabled (for one of the two values of
+the model's tie-breaking flag). -/
+theorem batch_enabled {cfg : Cfg} (s : State) (k v : Nat) :
+    (Batcher.step cfg s (.proc (.enqueue k (s.p.now + cfg.interval) v true))).isSome = true ∨
+    (Batcher.step cfg s (.proc (.enqueue k (s.p.now + cfg.interval) v false))).isSome = true := by
+  have hg : enqGuard s.p.q k (s.p.now + cfg.interval) true ∨ enqGuard s.p.q k (s.p.now + cfg.interval) false := by
+    by_cases h : ∀ x ∈ remove s.p.q k, s.p.now + cfg.interval ≤ x.time
+    · exact Or.inl (by simp only [enqGuard, ↓reduceIte]; exact Or.inr h)
+    · obtain ⟨x, hx⟩ := Classical.not_forall.mp h
+      obtain ⟨hx1, hx2⟩ := Classical.not_imp.mp hx
+      exact Or.inr (by simp only [enqGuard, Bool.false_eq_true, ↓reduceIte]; exact ⟨x, hx1, by omega⟩)
+  rcases hg with hg | hg
+  · left; simp [Batcher.step, procStep, Processor.step, hg]
+  · right; simp [Batcher.step, procStep, Processor.step, hg]
+
+/-- **departure_never_wedges (Batch)**: a value passed to `Batch` that is still the live one for
+its key when the clock reaches its due time gets its fan-out started (`C06.none_stranded` lifted
+through every fan-out on the way), and that fan-out completes (`departure_never_wedges_execute`). -/
+theorem departure_never_wedges_batch {cfg : Cfg} (hfix : cfg.fixed = true) (hcap : 0 < cfg.cap)
+    {stalled : Nat → Prop} {s : State} (hr : Reach (Batcher.lts cfg) s) (hopen : s.p.stopped = false)
+    {x : It} (hx : x ∈ s.p.q) (hdue : x.time ≤ s.p.now) (hd : Departed stalled s) :
+    ∃ s', Steps (Batcher.lts cfg) (Allowed stalled) s s' ∧ Event.exec x s.p.now ∈ s'.p.log := by
+  obtain ⟨p', hp, he⟩ := Processor.progress ⟨reach_proj hr, hopen, hx, hdue⟩
+  have hp' : Steps (Processor.lts pcfg) (fun l => l.isInternal = true) s.p p' := by
+    refine Steps.mono ?_ hp
+    intro a ha
+    have : a.isLoop = true := ha
+    cases a <;> simp_all [Processor.Label.isInternal, Processor.Label.isLoop]
+  obtain ⟨s', h1, h2, _⟩ := lift hfix hcap hp' hr rfl hd
+  exact ⟨s', h1, by rw [h2]; exact he⟩
+
+/-- **departure_never_wedges (Close)**: from every reachable state in which `Close` has been
+called, `Close` returns. -/
+theorem departure_never_wedges_close {cfg : Cfg} (hfix : cfg.fixed = true) (hcap : 0 < cfg.cap)
+    {stalled : Nat → Prop} {s : State} (hr : Reach (Batcher.lts cfg) s) (hb : s.bc ≠ .idle)
+    (hd : Departed stalled s) :
+    ∃ s', Steps (Batcher.lts cfg) (Allowed stalled) s s' ∧ s'.bc = .returned :=
+  close_completes hfix hcap hr hb hd
+
 /-! ## non-vacuity -/
 
 theorem reach_of_run {cfg : Cfg} {s s' : State} (hr : Reach (Batcher.lts cfg) s) :
@@ -259,5 +317,31 @@ step is still enabled there (a late `Subscribe` call). -/
 example : Reach (Batcher.lts demoCfg) demo4 ∧ demo4.bc = .returned ∧ demo4.subs ≠ [] ∧
     (Batcher.step demoCfg demo4 .subCall).isSome :=
   ⟨demo_reach.2, rfl, by simp [demo4], by simp [Batcher.step, subCall]⟩
+
+/-- The callback is running (`demo2`) and the only subscriber has ended its context. -/
+def demo2c : State := { demo2 with subs := [{ Sub.new 0 with ctxDone := true }] }
+
+theorem demo2c_step : Batcher.step demoCfg demo2 (.cancel 0) = some demo2c := by
+  simp [Batcher.step, cancel, setSub, demo2, demo1, demo2c, Sub.new]
+
+def demo2cc : State := { demo2c with p := { demo2c.p with stopped := true, cpc := .casDone }, bc := .inQueue }
+
+theorem demo2cc_step : Batcher.step demoCfg demo2c .closeCall = some demo2cc := by
+  simp [Batcher.step, closeCall, Processor.step, demo2, demo1, demo2c, demo2cc]
+
+/-- The `departure_never_wedges_*` theorems have instances: every reader stalled, the subscriber's
+context ended, the callback running, (in `demo2cc`) `Close` called; in `demo1` a live item. -/
+example : Reach (Batcher.lts demoCfg) demo2c ∧ demo2c.p.pc = .running demoItem ∧ Departed (fun _ => True) demo2c ∧
+    Reach (Batcher.lts demoCfg) demo2cc ∧ demo2cc.bc ≠ .idle ∧ Departed (fun _ => True) demo2cc ∧
+    demoCfg.fixed = true ∧ 0 < demoCfg.cap := by
+  have h2 := reach_of_run (reach_of_run Reach.init demo_run1) demo_run2
+  have h2c : Reach (Batcher.lts demoCfg) demo2c := reach_of_run (ls := [.cancel 0]) h2 (by simp [runFrom, demo2c_step])
+  have hd : Departed (fun _ => True) demo2c := by
+    intro i u hi _
+    cases i with
+    | zero => simp [demo2c, demo2, demo1] at hi; subst hi; rfl
+    | succ i => simp [demo2c, demo2, demo1] at hi
+  refine ⟨h2c, rfl, hd, reach_of_run (ls := [.closeCall]) h2c (by simp [runFrom, demo2cc_step]), by simp [demo2cc], ?_, rfl, by decide⟩
+  exact hd
 
 end Kit.Batcher.C10
